@@ -1,9 +1,9 @@
-(* C18 - for safe rules every answer is ground: the goal with resolve_term applied is a fact.  Semantic argument:
+(* C18 - determined terms, filters, and: for safe rules every answer is ground: the goal with resolve_term applied is a fact.  Semantic argument:
    a returned binding map determines the value of every goal variable (all satisfying valuations agree), and a
    well-formed map that determines a term resolves it to a constant. *)
 Require Import List NArith ZArith String Bool Lia.
 Require Import KV.Backward.Model KV.Backward.Spec KV.Backward.NameProofs KV.Backward.SubstProofs
-        KV.Backward.RenameProofs KV.Backward.SearchProofs KV.Backward.CompleteProofs.
+        KV.Backward.RenameProofs KV.Backward.SearchProofs.
 Import ListNotations.
 
 Definition det_term (th : subst) (t : term) : Prop :=
@@ -91,7 +91,89 @@ Proof.
   rewrite forallb_forall in Hs. apply mem_In. apply Hs. unfold atoms_vars. apply in_flat_map. eauto.
 Qed.
 
+(* ---- filters: on a well-formed map that determines the filter's variables, the engine's evaluate_filters on
+   the ground map is the Spec's filter_holds under any satisfying valuation -------------------------------- *)
+Lemma lookup_ground_gen : forall th l x,
+    lookup x (flat_map (fun e : string * term => match resolve_term th (Var (fst e)) with
+                                                  | Cst c => [(fst e, c)]
+                                                  | Var _ => []
+                                                  end) l)
+    = match resolve_term th (Var x) with
+      | Cst c => if existsb (fun e : string * term => String.eqb x (fst e)) l then Some c else None
+      | Var _ => None
+      end.
+Proof.
+  intros th l x. induction l as [|[y t] l IH]; cbn [flat_map existsb fst].
+  - cbn [lookup]. destruct (resolve_term th (Var x)); reflexivity.
+  - destruct (String.eqb x y) eqn:E.
+    + apply String.eqb_eq in E. subst y.
+      destruct (resolve_term th (Var x)) as [z|c] eqn:Er; cbn [app].
+      * exact IH.
+      * rewrite lookup_cons, String.eqb_refl. reflexivity.
+    + cbn [orb]. destruct (resolve_term th (Var y)) as [z|c] eqn:Ey; cbn [app].
+      * exact IH.
+      * rewrite lookup_cons, E. exact IH.
+Qed.
+
+Lemma lookup_key : forall (th : subst) x, lookup x th <> None -> existsb (fun e : string * term => String.eqb x (fst e)) th = true.
+Proof.
+  induction th as [|[y t] th IH]; intros x H; cbn in *; [congruence|].
+  destruct (String.eqb x y); [reflexivity|]. now apply IH.
+Qed.
+
+Lemma det_var_ground : forall th x,
+    wf th -> det_term th (Var x) ->
+    exists c, lookup x (ground_map th) = Some c /\ forall nu, sat nu th -> nu x = c.
+Proof.
+  intros th x Hwf Hd. pose proof (det_term_ground th (Var x) Hwf Hd) as Hg.
+  destruct (resolve_term th (Var x)) as [z|c] eqn:Er; [discriminate|]. exists c. split.
+  - unfold ground_map. rewrite lookup_ground_gen, Er, lookup_key; [reflexivity|].
+    intros Hn. unfold resolve_term in Er. rewrite resolve_fuel_root in Er by exact Hn. discriminate.
+  - intros nu Hs. pose proof (eval_resolve nu th (Var x) Hs) as He. rewrite Er in He. cbn in He. now symmetry.
+Qed.
+
+Lemma eval_filter_spec : forall num th nu f,
+    wf th -> (forall x, In x (filter_vars f) -> det_term th (Var x)) -> sat nu th ->
+    eval_filter num (ground_map th) f = filter_holds num nu f.
+Proof.
+  intros num th nu [x op v] Hwf Hd Hs. unfold eval_filter, filter_holds. cbn [fvar fop fval].
+  destruct (det_var_ground th x Hwf (Hd x (or_introl eq_refl))) as (c & -> & Hc). rewrite (Hc nu Hs).
+  destruct v as [z|y]; [reflexivity|].
+  destruct (det_var_ground th y Hwf (Hd y (or_intror (or_introl eq_refl)))) as (c' & -> & Hc'). now rewrite (Hc' nu Hs).
+Qed.
+
+Lemma filters_hold_spec : forall num th nu fs,
+    wf th -> (forall f x, In f fs -> In x (filter_vars f) -> det_term th (Var x)) -> sat nu th ->
+    filters_hold num fs th = forallb (filter_holds num nu) fs.
+Proof.
+  intros num th nu fs Hwf Hd Hs.
+  assert (E : evaluate_filters num (ground_map th) fs = forallb (filter_holds num nu) fs).
+  { unfold evaluate_filters. induction fs as [|f fs IH]; [reflexivity|]. cbn.
+    rewrite (eval_filter_spec num th nu f Hwf) by (intros x Hx; apply (Hd f x); [now left|assumption]) || exact Hs.
+    f_equal. apply IH. intros g x Hg Hx. apply (Hd g x); [now right|assumption]. }
+  destruct fs; [reflexivity|exact E].
+Qed.
+
+Lemma safe_rule_filter_vars : forall r f x,
+    safe_rule r = true -> In f (filters r) -> In x (filter_vars f) -> In x (atoms_vars (prem r)).
+Proof.
+  intros r f x Hs Hf Hx. unfold safe_rule in Hs. apply andb_true_iff in Hs. destruct Hs as [_ Hs].
+  rewrite forallb_forall in Hs. specialize (Hs f Hf). rewrite forallb_forall in Hs. apply mem_In. now apply Hs.
+Qed.
+
+(* the renamed filters of a safe rule only mention variables determined by the solved renamed premises *)
+Lemma renamed_filters_det : forall th vm r,
+    safe_rule r = true -> Forall (det th) (map (ren_atom vm) (prem r)) ->
+    forall f x, In f (map (rename_filter vm) (filters r)) -> In x (filter_vars f) -> det_term th (Var x).
+Proof.
+  intros th vm r Hs Hd f x Hf Hx. apply in_map_iff in Hf. destruct Hf as (f0 & <- & Hf0).
+  rewrite filter_vars_rename in Hx. apply in_map_iff in Hx. destruct Hx as (x0 & <- & Hx0).
+  rewrite <- ren_var_name. apply (det_ren_term th vm (prem r) (Var x0)); [|assumption].
+  intros y [<-|[]]. eapply safe_rule_filter_vars; eauto.
+Qed.
+
 Section Ground.
+  Variable num : N -> Z.
   Variable F : list fact.
   Variable R : list rule.
 
@@ -124,17 +206,18 @@ Section Ground.
         constructor; [|assumption]. eapply det_mono; eauto.
     Qed.
 
-    Lemma solve_concls_det : forall sq th ps cs n th',
-        In th' (fst (solve_concls rec sq th ps cs n)) ->
+    Lemma solve_concls_det : forall sq th ps fs cs n th',
+        In th' (fst (solve_concls num rec sq th ps fs cs n)) ->
         exists c, In c cs /\ ext th' th /\ (forall nu, sat nu th' -> eval_atom nu c = eval_atom nu sq) /\
                   Forall (det th') ps.
     Proof.
-      intros sq th ps cs. induction cs as [|c cs IH]; intros n th' H; cbn in H; [contradiction|].
+      intros sq th ps fs cs. induction cs as [|c cs IH]; intros n th' H; cbn in H; [contradiction|].
       destruct (unify_patterns c sq th) as [rb|] eqn:Eu.
       - destruct (solve_prems rec ps [rb] n) as [r n1] eqn:E1.
-        destruct (solve_concls rec sq th ps cs n1) as [rs' n2] eqn:E2.
+        destruct (solve_concls num rec sq th ps fs cs n1) as [rs' n2] eqn:E2.
         cbn in H. apply in_app_or in H. destruct H as [H|H].
-        + destruct (solve_prems_det ps [rb] n th') as (b & Hb & Heb & Hdb); [now rewrite E1|].
+        + apply filter_In in H. destruct H as [H _].
+          destruct (solve_prems_det ps [rb] n th') as (b & Hb & Heb & Hdb); [now rewrite E1|].
           destruct Hb as [<-|[]]. exists c. split; [now left|].
           split; [|split; [|assumption]].
           * intros nu Hs. exact (proj1 (unify_patterns_sound nu _ _ _ _ Eu (Heb nu Hs))).
@@ -144,15 +227,15 @@ Section Ground.
     Qed.
 
     Lemma solve_rules_det : forall sq th rs n th',
-        forallb safe_rule rs = true -> In th' (fst (solve_rules rec sq th rs n)) -> det th' sq /\ ext th' th.
+        forallb safe_rule rs = true -> In th' (fst (solve_rules num rec sq th rs n)) -> det th' sq /\ ext th' th.
     Proof.
       intros sq th rs. induction rs as [|r rs IH]; intros n th' Hsafe H; cbn in H; [contradiction|].
       cbn in Hsafe. apply andb_true_iff in Hsafe. destruct Hsafe as [Hsr Hsafe].
       destruct (rename_rule_variables r n) as [rr n1] eqn:Er.
-      destruct (solve_concls rec sq th (prem rr) (concl rr) n1) as [res1 n2] eqn:E1.
-      destruct (solve_rules rec sq th rs n2) as [rest n3] eqn:E2.
+      destruct (solve_concls num rec sq th (prem rr) (filters rr) (concl rr) n1) as [res1 n2] eqn:E1.
+      destruct (solve_rules num rec sq th rs n2) as [rest n3] eqn:E2.
       cbn in H. apply in_app_or in H. destruct H as [H|H].
-      - destruct (solve_concls_det sq th (prem rr) (concl rr) n1 th') as (c' & Hc' & He & Heq & Hd); [now rewrite E1|].
+      - destruct (solve_concls_det sq th (prem rr) (filters rr) (concl rr) n1 th') as (c' & Hc' & He & Heq & Hd); [now rewrite E1|].
         split; [|assumption].
         destruct (rename_rule_spec _ _ _ _ Er) as (vm & Hok & Hle & Epm & Ecl & _).
         rewrite Ecl in Hc'. apply in_map_iff in Hc'. destruct Hc' as (c & <- & Hc). rewrite Epm in Hd.
@@ -173,10 +256,10 @@ Section Ground.
       - intros nu Hs. exact (proj1 (unify_patterns_sound nu _ _ _ _ Eu Hs)).
     Qed.
 
-    Lemma helper_body_det : safe_rules R = true -> rec_det (helper_body F R rec).
+    Lemma helper_body_det : safe_rules R = true -> rec_det (helper_body num F R rec).
     Proof.
       intros Hsafe q th n th' H. unfold helper_body in H.
-      destruct (solve_rules rec (substitute th q) th R n) as [rr n1] eqn:E. cbn in H.
+      destruct (solve_rules num rec (substitute th q) th R n) as [rr n1] eqn:E. cbn in H.
       assert (X : det th' (substitute th q) /\ ext th' th).
       { apply in_app_or in H. destruct H as [H|H].
         - eapply match_facts_det; eauto.
@@ -187,42 +270,17 @@ Section Ground.
     Qed.
   End Nest.
 
-  Lemma helper_det : safe_rules R = true -> forall k, rec_det (helper F R k).
+  Lemma helper_det : safe_rules R = true -> forall k, rec_det (helper num F R k).
   Proof.
     intros Hsafe. induction k as [|k IH]; intros q th n th' H; cbn in H; [contradiction|].
     now apply (helper_body_det _ IH Hsafe q th n th').
   Qed.
 
   Lemma answers_ground : forall q th,
-      safe_rules R = true -> In th (backward_chaining F R q) -> ground_atom (apply_answer th q) = true.
+      safe_rules R = true -> In th (backward_chaining num F R q) -> ground_atom (apply_answer th q) = true.
   Proof.
-    intros q th Hsafe H. apply det_ground; [eapply backward_chaining_wf; eauto|].
+    intros q th Hsafe H. apply det_ground; [eapply (backward_chaining_wf num); eauto|].
     unfold backward_chaining in H. exact (proj1 (helper_det Hsafe _ _ _ _ _ H)).
   Qed.
 End Ground.
 
-(* ---- the property in its exact form for safe rule sets ---------------------------------------------------- *)
-Definition matches_goal (q : atom) (f : fact) : Prop := exists nu, eval_atom nu q = f.
-
-Lemma answers_exact_sound : forall num F R q a,
-    safe_rules R = true -> known_C18 R = false -> In a (answers F R q) ->
-    exists f, a = fact_pattern f /\ least_model num F R f /\ matches_goal q f.
-Proof.
-  intros num F R q a Hsafe Hk H. unfold answers in H. apply in_map_iff in H. destruct H as (th & <- & Hth).
-  pose proof (answers_ground F R q th Hsafe Hth) as Hg.
-  pose proof (backward_chaining_wf F R q th Hth) as Hwf.
-  set (nu := fun _ : string => 0%N).
-  exists (eval_atom nu (apply_answer th q)). split; [|split].
-  - eapply ground_eval; eauto.
-  - now apply sound.
-  - exists (compose nu th). now apply eval_atom_compose.
-Qed.
-
-Lemma answers_exact_complete : forall num F R q f,
-    safe_rules R = true -> matches_goal q f -> derivable num F R MAX_DEPTH f -> In (fact_pattern f) (answers F R q).
-Proof.
-  intros num F R q f Hsafe [nu <-] Hd.
-  destruct (complete_shallow num F R q nu Hd) as (th & Hth & nu' & He).
-  unfold answers. apply in_map_iff. exists th. split; [|assumption].
-  exact (ground_eval nu' _ _ (answers_ground F R q th Hsafe Hth) He).
-Qed.
